@@ -65,7 +65,7 @@ struct Task : tulz::Runnable {
         if (w >= 0 && w < MAXT) g_task_of[w] = 0;
         ev("RunEnd", k, w);
     }
-    ~Task() override {
+    ~Task() {   // no "override": whether the base destructor is virtual is the library's business, the events tell
         ev("Destroy", k, vs::self());
         canary = 0xDEAD;
     }
